@@ -35,11 +35,12 @@ THEOREMS = ['unique_names_fresh', 'unique_names_never_reused', 'unicast_exact', 
             'simple_rule_keys_are_the_routers',
             'original_unicast_reaches_rule_holder', 'original_rule_outlives_its_client',
             # extension 2026-09-30: the full rule language, composed with C12
-            'bus_rule_matches_iff_c12_spec', 'full_rule_matches_iff_spec', 'held_rules_were_registered',
-            'broadcast_exact_full', 'broadcast_exact_c12_spec', 'addmatch_text_roundtrip',
-            'client_text_rule_matches_spec', 'client_text_events_are_wf', 'broadcast_order_preserved',
-            'broadcast_first_copies_in_order', 'simple_rules_embed', 'simple_histories_embed', 'arg0namespace_is_ignored',
-            'sender_constraint_is_ignored_full']
+            'bus_rule_matches_iff_c12_spec', 'bus_rule_matches_iff_c12_relation', 'full_rule_matches_iff_spec',
+            'held_rules_were_registered', 'broadcast_exact_full', 'broadcast_exact_found_router_partial',
+            'bus_broadcast_exact_full', 'addmatch_text_roundtrip', 'client_text_rule_matches_spec',
+            'client_text_history_held_in_spec', 'held_rules_come_from_texts', 'broadcast_order_preserved',
+            'broadcast_first_copies_in_order', 'simple_rules_embed', 'simple_histories_embed',
+            'arg0namespace_is_ignored', 'sender_constraint_is_ignored_full', 'bus_signal_ignores_arg0namespace']
 TRUSTED_BASE = [
     'a message is its observable header (type, serial, whole flags byte, the nine known header fields, a token for fields '
     'with unknown codes) plus an opaque body token (byte order + signature + digest of the body bytes); the model\'s '
@@ -51,10 +52,13 @@ TRUSTED_BASE = [
     'instantiate it with C12\'s code models (Route/Rule.lean mkRule + Rule.match, Route/Text.lean parseRuleGen) on the '
     'bus\'s message object (Bus/RouteFull.lean ruleView: member has no class default, the others read None), for all '
     'keys: type, interface, member, path, destination, path_namespace, argN, argNpath; sender is stored and ignored '
-    '(known finding), arg0namespace is evaluated or ignored as the switch Gen.BusRoute.evaluatesArg0ns (probed from '
-    'router.py by tools/tables/c14_busroute.py on every run) says',
-    'the body as match rules see it (`args`: str / other per top-level argument) is an input of the model, taken '
-    'from txdbus\'s own unmarshalling of the sent bytes (C02 / C11 own the unmarshaller); the rule a registration '
+    '(known finding), arg0namespace is evaluated or ignored as C12\'s switch Gen.Route.evaluatesArg0ns (probed from '
+    'router.py by tools/tables/c12_route.py on every run) says: one switch, one matcher (Route.Rule.matchWith) for '
+    'both properties',
+    'the body as match rules see it (`args`: str / other per top-level argument) is an input of the MODEL, taken '
+    'from txdbus\'s own unmarshalling of the sent bytes (the model is the bus\'s twin; C02 / C11 own the unmarshaller); '
+    'the ORACLE takes it from the values and the signature the harness built the message from (`constructed_view`; '
+    'statistic body-as-built-vs-as-unmarshalled); for the bus\'s own signals both read the delivered bytes; the rule a registration '
     'uses is the MODEL\'s reading of the rule text in the AddMatch call, compared on every AddMatch with the kwargs '
     'observed at the real router.addMatch (`rule=` in the driver output)',
     'the name table is a parameter of the model (C13 owns RequestName/ReleaseName): owner changes and the signals '
@@ -239,6 +243,23 @@ def sig_types(sig):
     return out
 
 
+def constructed_view(B, md):
+    """The body of a message the harness BUILDS, as a bus sees it by the DBus type rules - from the values and the
+    signature the harness chose, not from txdbus's unmarshaller: a top-level STRING / OBJECT_PATH / SIGNATURE argument is
+    a string, a VARIANT is what it contains, everything else is 'other'.  -> (view, top-level types)."""
+    sig, body = md['sigbody'] if 'sigbody' in md else B[md.get('body', 'none')]
+    if not sig:
+        return (None, [])
+    types = sig_types(sig)
+    view = []
+    for t, v in zip(types, body):
+        if t in ('s', 'o', 'g') or (t == 'v' and isinstance(v, str)):
+            view.append(('s', str(v)))
+        else:
+            view.append(('o',))
+    return (view, types)
+
+
 def representable_rule(kw):
     """Can the observed kwargs be written as a rule of the model (strings, lists of (index, string))?"""
     for k, v in kw.items():
@@ -307,6 +328,7 @@ class Net:
         self.cur = None
         self.aborted = None
         self.model_off = None          # a link failed with an exception: the oracle goes on, the model comparison stops
+        self.view_differs = 0          # messages whose body txdbus unmarshals differently from what was built
         self.ref_differs = 0           # events at which the reference owner table and the bus's own table differ
         self.stray = []                # writes to a client of this bus while this bus processed nothing
         self._wend = 0                 # length of the write log at the end of the last event of this bus
@@ -409,7 +431,7 @@ class Net:
             raise RuntimeError('ANONYMOUS authentication did not complete')
         self.wlog[n0:] = [e for e in self.wlog[n0:] if e[0] != idx]     # the OK line
         self._wend = len(self.wlog)
-        c = {'p': p, 't': t, 'alive': True, 'ruled': False}
+        c = {'p': p, 't': t, 'alive': True, 'ruled': False, 'views': []}
         self.clients.append(c)
         real = p.rawDBusMessageReceived
 
@@ -455,6 +477,13 @@ class Net:
         st = Step()
         st.kind, st.i = kind, i
         st.sent = parse(self.message, raw, sent=True) if raw is not None else None
+        if st.sent is not None:
+            # the ORACLE's view of the body: from the values the harness built the message from (when it knows them)
+            q = self.clients[i]['views']
+            cv = q.pop(0) if q else None
+            st.sent['cargs'], st.sent['ctypes'] = cv if cv is not None else (st.sent['args'], st.sent['argtypes'])
+            if cv is not None and cv[0] != st.sent['args']:
+                self.view_differs += 1
         st.heads = self.heads()
         st.alive = [c['alive'] for c in self.clients]
         st.names_before = [c['p'].uniqueName for c in self.clients]
@@ -494,11 +523,13 @@ class Net:
         self.steps.append(st)
         self._wend = len(self.wlog)
 
-    def feed(self, i, raws):
-        """One read carrying the messages `raws` from client i; then what the reactor does."""
+    def feed(self, i, raws, views=None):
+        """One read carrying the messages `raws` from client i; then what the reactor does.  `views`: the constructed
+        view of every message that COMPLETES in this read (None: not known)."""
         c = self.clients[i]
         if not c['alive'] or self.aborted:
             return
+        c['views'].extend([None] * len(raws) if views is None else views)
         n0 = len(self.steps)
         try:
             c['p'].dataReceived(b''.join(raws))
@@ -519,11 +550,12 @@ class Net:
         if c['t'].disconnecting:
             self.disconnect(i)
 
-    def feed_bytes(self, i, data):
+    def feed_bytes(self, i, data, views=None):
         """A read that need not end on a message boundary (no reactor follow-up)."""
         c = self.clients[i]
         if not c['alive'] or self.aborted:
             return
+        c['views'].extend(views or [])
         try:
             c['p'].dataReceived(data)
         except HarnessReach as e:
@@ -1000,21 +1032,23 @@ def apply_op(net, B, op):
         if max(i, j) >= len(net.clients) or not (net.clients[i]['alive'] and net.clients[j]['alive']) or i == j:
             return
         names = [c['p'].uniqueName for c in net.clients]
-        raw_i = b''.join(build(net.message, B, md) for md in op_to_msgs(op_i, names))
-        raw_j = [build(net.message, B, md) for md in op_to_msgs(op_j, names)]
+        mds_i, mds_j = op_to_msgs(op_i, names), op_to_msgs(op_j, names)
+        raw_i = b''.join(build(net.message, B, md) for md in mds_i)
+        raw_j = [build(net.message, B, md) for md in mds_j]
         cut = max(1, min(len(raw_i) - 1, cut))
-        net.feed_bytes(i, raw_i[:cut])
-        net.feed(j, raw_j)
+        net.feed_bytes(i, raw_i[:cut], views=[constructed_view(B, md) for md in mds_i])
+        net.feed(j, raw_j, views=[constructed_view(B, md) for md in mds_j])
         if net.clients[i]['alive']:
-            net.feed(i, [raw_i[cut:]])
+            net.feed(i, [raw_i[cut:]], views=[])
     else:
         i = op[1]
         if i >= len(net.clients) or not net.clients[i]['alive']:
             return
         names = [c['p'].uniqueName for c in net.clients]
         # a client that has not been named yet learns its name only from Hello: '@i' then is a guess
-        raws = [build(net.message, B, md) for md in op_to_msgs(op, names)]
-        net.feed(i, raws)
+        mds = op_to_msgs(op, names)
+        raws = [build(net.message, B, md) for md in mds]
+        net.feed(i, raws, views=[constructed_view(B, md) for md in mds])
 
 
 def net_lines(net):
@@ -1514,6 +1548,8 @@ def oracle(net):
         dest = m['dest']
         mprime = dict(m)
         mprime['sender'] = true
+        # the body as the harness BUILT it (not as txdbus unmarshalled it)
+        mprime['args'], mprime['argtypes'] = m.get('cargs', m['args']), m.get('ctypes', m['argtypes'])
 
         def matches(r, **kw):
             return rule_matches_spec(r, mprime, rule_heads, names, **kw)
@@ -1525,7 +1561,9 @@ def oracle(net):
         if dest == BUS:
             replies = [(j, d) for j, d in bo if d['t'] in (2, 3) and d['rs'] == m['serial']]
             if is_addmatch_call(m):
-                r = parse_rule(ast.literal_eval(m['body'])[0])
+                text = (m['cargs'][0][1] if m.get('cargs') and m['cargs'][0][0] == 's'
+                        else ast.literal_eval(m['body'])[0])
+                r = parse_rule(text)
                 refused = any(j == i and d['t'] == 3 for j, d in replies)
                 if r is not None and not refused:
                     held[i].append(r)
@@ -1613,7 +1651,7 @@ def oracle(net):
                 rules = [r for j in sorted(a_ign) for r in held[j] if 'arg0namespace' in r]
                 add('arg0namespace-constraint-ignored', 'a broadcast from %s whose first argument is %s reached '
                     'connection(s) %s whose only matching rule(s) ask for another namespace: %s'
-                    % (true, repr(m['args'][0][-1]) if m['args'] else 'absent', sorted(a_ign), rules),
+                    % (true, repr(mprime['args'][0][-1]) if mprime['args'] else 'absent', sorted(a_ign), rules),
                     sorted(got), sorted(got - a_ign))
             if rest:
                 add('broadcast-to-non-holder', 'a broadcast reached connection(s) %s holding no matching rule'
@@ -1747,6 +1785,7 @@ def judge_net(ctx, stream, ops, net, lines, collect, first=True):
     if net.model_off:
         ctx.stat('link-failed-history-continued')
     vs = oracle(net)
+    ctx.stat('body-as-built-vs-as-unmarshalled: %s' % ('differs for some message' if net.view_differs else 'same for every message'))
     ctx.stat('owner-reference-vs-bus-table: %s' % ('differs at some event' if net.ref_differs else 'same at every event'))
     for key, what, obs, exp in vs:
         ctx.violation(key, what, inp={'ops': ops}, observed=obs, expected=exp)
@@ -2152,6 +2191,39 @@ def full_rule_histories():
                                    body='s')])
         ops.append(['msg', 0, dict(t=4, serial=serial + 3, dest='@2', path='/x/y', iface='org.ex.I', member='Foo',
                                    body='name')])
+        yield ops
+
+
+# rule texts no txdbus client writes: unquoted values, stray commas, empty / unknown / repeated keys, odd argument
+# keys, quoting corner cases, texts that are no rule.  What the bus registers for them (or that it refuses them) is
+# compared with the model's reading of the text on every line (`rule=`); the oracle judges the ones it can read.
+FOREIGN_TEXTS = [
+    "type=signal,interface=org.ex.I", "type=signal", "interface=org.ex.I,member=Foo", "path=/x/y,arg0=hi",
+    ",type='signal'", "type='signal',", "type='signal',,member='Foo'", "=x", "type==x", "type='signal'=x",
+    "eavesdrop=true", "eavesdrop='true',type='signal'", "type='signal',type='error'", "interface='org.ex.I',interface='org.ex.J'",
+    "arg0='hi',arg0='a'", "arg01='hi'", "arg1='x',arg01=''", "arg64='hi'", "argfoo='hi'", "argpath='/x/'", "arg='hi'",
+    "arg0path='/x/',arg0path='/'", "arg0='a''b'", "arg0=a\\'b", "arg0='a\\b'", "arg0=a\\b", "arg0='hi", "'",
+    "type='signal', interface='org.ex.I'", " type='signal'", "arg0 ='hi'", "arg0= 'hi'", "member='Foo' ",
+    "arg0namespace=org.ex", "path_namespace=/x,arg0namespace='org'", "interface=''", "arg0=''", "arg2=c,arg0=a",
+    "sender=org.freedesktop.DBus,member=NameOwnerChanged", "destination=':1.9'", "nonsense", "a", "",
+]
+
+
+def foreign_text_histories():
+    """Client 1 sends AddMatch with a foreign text (flags 0 / NO_REPLY alternating), client 2 the next text of the list;
+    client 0 broadcasts signals with string arguments; a name request makes the bus broadcast as well."""
+    n = len(FOREIGN_TEXTS)
+    for k, text in enumerate(FOREIGN_TEXTS):
+        ops, serial = setup3(3)
+        ops.append(['match', 1, serial, text, k % 2])
+        ops.append(['match', 2, serial + 1, FOREIGN_TEXTS[(k + 1) % n], 0])
+        serial += 2
+        for body, path in (('s', '/x/y'), ('sss', '/x'), ('none', '/y'), ('so', '/x/y'), ('name', '/'), ('quote', '/x')):
+            ops.append(['msg', 0, dict(t=4, serial=serial, dest=None, path=path, iface='org.ex.I', member='Foo',
+                                       body=body)])
+            serial += 1
+        ops.append(['req', 0, serial, 'org.ex.A', 0, 0])
+        ops.append(['msg', 0, dict(t=3, serial=serial + 1, dest=None, rs=3, err='org.ex.Error', body='s')])
         yield ops
 
 
@@ -2568,6 +2640,8 @@ def run(ctx):
     for ops in full_rule_histories():
         go('full-rule-language', ops)
     for ops in name_signal_histories():
+        go('full-rule-language', ops)
+    for ops in foreign_text_histories():
         go('full-rule-language', ops)
     nfull = ctx.scale(quick=60, thorough=1500)
     for k in range(nfull):
